@@ -221,6 +221,10 @@ Definition ka_allows (s : state) (k : kind) : bool :=
   | _, _ => true
   end.
 
+(* the keep-alive loop is inside the call it has just issued *)
+Definition ka_after (k : kind) (c : nat) (old : kpc) : kpc :=
+  match k with KPing => KInPing c | KKaClose => KInClose c | _ => old end.
+
 (* pc at which Send is entered *)
 Definition at_send (v : variant) (cl : caller) : bool :=
   match c_pc cl with
@@ -240,8 +244,7 @@ Definition after_call (cl : caller) (r : result) : cpc :=
 
 (* Watch returns: deferred cancel, and (repaired) close of the queue *)
 Definition watch_exit (v : variant) (s : state) : state :=
-  let s1 := set_done (set_wpc s WExited) true in
-  if v_watch_closes v then set_queue_closed s1 true else s1.
+  set_queue_closed (set_done (set_wpc s WExited) true) (v_watch_closes v || queue_closed s).
 
 Definition step (v : variant) (s : state) (e : event) : option state :=
   match e with
@@ -250,12 +253,7 @@ Definition step (v : variant) (s : state) (e : event) : option state :=
     | PNone =>
       if gor_free s g && ka_allows s k then
         let s1 := with_caller s c (mkCaller k g q f PStarted false false None) in
-        let s2 := set_started s1 (started s ++ [c]) in
-        Some (match k with
-              | KPing => set_ka s2 (KInPing c)
-              | KKaClose => set_ka s2 (KInClose c)
-              | _ => s2
-              end)
+        Some (set_ka (set_started s1 (started s ++ [c])) (ka_after k c (ka s)))
       else None
     | _ => None
     end
@@ -508,17 +506,26 @@ Fixpoint settle (v : variant) (auto_app : bool) (fuel : nat) (s : state) (tr : l
 Definition settle_fuel : nat := 400.
 
 (* one forced group: events applied back to back (the octets of several
-   frames made readable at once; a call that begins because another returned) *)
+   frames made readable at once; a call that begins because another returned).
+   The forced events of a group are applied as early as they are enabled; the
+   system settles when the next one is not yet enabled and at the end. *)
 Fixpoint run_group (v : variant) (auto_app : bool) (evs : list event) (s : state) (tr : list event)
   : option (state * list event) :=
   match evs with
-  | [] => Some (s, tr)
+  | [] =>
+    let '(s2, tr2, ok) := settle v auto_app settle_fuel s tr in
+    if ok then Some (s2, tr2) else None
   | e :: r =>
     match step v s e with
-    | None => None
-    | Some s1 =>
-      let '(s2, tr2, ok) := settle v auto_app settle_fuel s1 (tr ++ [e]) in
-      if ok then run_group v auto_app r s2 tr2 else None
+    | Some s1 => run_group v auto_app r s1 (tr ++ [e])
+    | None =>
+      let '(s2, tr2, ok) := settle v auto_app settle_fuel s tr in
+      if ok then
+        match step v s2 e with
+        | Some s3 => run_group v auto_app r s3 (tr2 ++ [e])
+        | None => None
+        end
+      else None
     end
   end.
 
